@@ -8,6 +8,9 @@ from driver import Unit as U, LIBS
 def spec(th, seed):
     units = [U('C06_norm.plain', 'mon/C06_norm.cpp', 'plain', libs=LIBS),
              U('C06_misc.plain', 'mon/C06_misc.cpp', 'plain', libs=LIBS)]
+    # second compiler (compiler-specific branches), reduced workload
+    units.append(U('C06_norm.clang.quick', 'mon/C06_norm.cpp', 'clang', libs=LIBS, scale=0.2, args=['--sweep-div', '16']))
+    units.append(U('C06_misc.clang.quick', 'mon/C06_misc.cpp', 'clang', libs=LIBS, scale=0.2, args=['--sweep-div', '16']))
     if th:
         # second compiler / other optimisation level on the quick workload (the 2^32 sweeps stay in the g++ -O2 units)
         units.append(U('C06_norm.clang', 'mon/C06_norm.cpp', 'clang', libs=LIBS, args=['--tier', 'quick']))
